@@ -8,6 +8,17 @@ import collections, json
 from vlib import common as C
 from vlib import diff as D
 
+
+def _retry(f, *a):
+    """the shared `driver` executable disappears for a moment whenever somebody relinks it"""
+    import time
+    for _ in range(60):
+        try:
+            return f(*a)
+        except FileNotFoundError:
+            time.sleep(2)
+    return f(*a)
+
 ASSUMPTIONS = [
     "user pools keep the contract of abt.h: create_unit returns ABT_UNIT_NULL or a handle with bit 0 clear that differs from every live unit of every user pool; free_unit/push/pop are only observed, not modelled",
     "ABT_UNIT_NULL is a parameter of the model (0x7 in this build, generated); ABTI_UNIT_HASH_TABLE_SIZE_EXP is generated; sizeof(uintptr_t) = 8",
@@ -384,13 +395,13 @@ def run_diff(res, what, model, exe, gen, oracle, rounds, nops, rng, hist, sample
         total += len(lines)
         if r == 0:
             res.sample({samplekey: lines[:12]})
-        d = D.compare(model, exe, lines)
+        d = _retry(D.compare, model, exe, lines)
         if d is None:
             continue
 
         def legal(ls):
             # shrunk sequences must stay inside the client contract (judged on the model's own output)
-            rc_m, om, _ = D.model_lines(model, ls)
+            rc_m, om, _ = _retry(D.model_lines, model, ls)
             if rc_m != 0 or any(("bad-op" in x or "abort" in x) for x in om):
                 return False
             if model == "unitmap":
@@ -423,9 +434,9 @@ def run_diff(res, what, model, exe, gen, oracle, rounds, nops, rng, hist, sample
             # the implementation's own output contradicts the property: shrink towards that
             small = D.ddmin(lines, lambda ls: legal(ls) and violates(ls), keep_prefix=keep, budget=300)
         else:
-            small = D.ddmin(lines, lambda ls: legal(ls) and D.compare(model, exe, ls) is not None,
+            small = D.ddmin(lines, lambda ls: legal(ls) and _retry(D.compare, model, exe, ls) is not None,
                             keep_prefix=keep, budget=300)
-        d2 = D.compare(model, exe, small) or d
+        d2 = _retry(D.compare, model, exe, small) or d
         rc, out_c, err = D.run_lines([exe], small)
         why = judge(small)
         rep = {"correspondence": what, "model": model, "ops": small, "disagreement": d2, "impl_output": out_c[:200],
@@ -468,7 +479,7 @@ def replay(res, path):
             exe, orc = C.cc_harness("wb_unitmap", ["wb_unitmap.c"], "san", extra="-lpthread"), oracle_unitmap
         else:
             exe, orc = C.cc_harness("api_userpool", ["api_userpool.c"], "plain"), oracle_userpool
-        d = D.compare(model, exe, rep["ops"])
+        d = _retry(D.compare, model, exe, rep["ops"])
         rc, out_c, err = D.run_lines([exe], rep["ops"])
         print("disagreement:", d)
         print("oracle:", orc(rep["ops"], out_c) if rc == 0 else err[-500:])
